@@ -28,6 +28,9 @@ struct Case {
     budget: i32,
     batch: usize,
     print: Option<i32>,
+    /// an earlier learn() call on the same network object: (epochs, with validation data); its own early stopping
+    /// is disabled (tolerance 1000), the contract is checked on the call that follows
+    pre: Option<(i32, bool)>,
 }
 
 fn dy(t: &mut Tape, range: i64, bits: u32) -> f32 {
@@ -58,7 +61,7 @@ fn decode(tape: &[u32], tier: Tier) -> Case {
     let budget = t.usize(1, 14) as i32;
     let batch = t.usize(1, ntrain + 1);
     let print = [None, None, None, None, None, None, None, None, Some(1), Some(2), Some(3), Some(100)][t.pick(12)];
-    let mut case = Case { inputs, w0, obj, lr, train, val, with_val, tol, budget, batch, print };
+    let mut case = Case { inputs, w0, obj, lr, train, val, with_val, tol, budget, batch, print, pre: None };
     // one case in ten: validation targets placed symmetrically around the weight's path (AE): the validation
     // loss |w - c - r| + |w - c + r| is constant while w moves inside [c - r, c + r], but the accuracy changes
     if inputs == 1 && t.chance(1, 10) {
@@ -82,6 +85,11 @@ fn decode(tape: &[u32], tier: Tier) -> Case {
         case.val = vec![(vec![2f32.powi(-k)], vy)];
         case.batch = 1;
         case.with_val = true;
+    }
+    // one case in six: the network has already been through a learn() call (nothing of that call - epoch counters,
+    // histories - may count towards this one)
+    if t.chance(1, 6) {
+        case.pre = Some((t.usize(1, 7) as i32, t.bool()));
     }
     case
 }
@@ -140,6 +148,28 @@ fn check(case: &Case, ev: &mut CaseEv) -> CheckResult {
     let vy: Vec<Tensor> = case.val.iter().map(|(_, y)| Tensor::single(vec![*y])).collect();
     let (xr, yr): (Vec<&Tensor>, Vec<&Tensor>) = (xs.iter().collect(), ys.iter().collect());
     let (vxr, vyr): (Vec<&Tensor>, Vec<&Tensor>) = (vx.iter().collect(), vy.iter().collect());
+    let pre_call = |n: &mut neurons::network::Network| -> Result<(), String> {
+        if let Some((e, v)) = case.pre {
+            catch(std::panic::AssertUnwindSafe(|| {
+                if v {
+                    n.learn(&xr, &yr, Some((&vxr, &vyr, 1000)), case.batch, e, None)
+                } else {
+                    n.learn(&xr, &yr, None, case.batch, e, None)
+                }
+            }))?;
+        }
+        Ok(())
+    };
+    if case.pre.is_some() {
+        ev.class("second learn() call on the same network object");
+        if let Err(p) = pre_call(&mut net) {
+            if p.contains("Loss is NaN") {
+                ev.discard = Some("training diverged to NaN (library aborts)");
+                return Ok(());
+            }
+            fail!("learn panicked: {} ({:?})", p, case);
+        }
+    }
     let res = catch(std::panic::AssertUnwindSafe(|| {
         if case.with_val {
             net.learn(&xr, &yr, Some((&vxr, &vyr, case.tol)), case.batch, case.budget, case.print)
@@ -198,6 +228,9 @@ fn check(case: &Case, ev: &mut CaseEv) -> CheckResult {
     }
     // the weights are those of exactly n epochs (validation does not influence training)
     let mut twin = make_net(case).map_err(Fail::new)?;
+    if pre_call(&mut twin).is_err() {
+        return Ok(());
+    }
     let r2 = catch(std::panic::AssertUnwindSafe(|| twin.learn(&xr, &yr, None, case.batch, n as i32, None)));
     if let Ok((tl2, _, _)) = r2 {
         let (wa, wb) = (tens::flat(&collect_params(&net)[0].1), tens::flat(&collect_params(&twin)[0].1));
@@ -229,7 +262,7 @@ impl Prop for C13 {
         Some(1)
     }
     fn rule(&self) -> String {
-        "tape-decoded training set-up whose validation-loss trajectory is exact: linear 1->1 (thorough also 2->1) model without bias, start weight, training slope, validation slope and offset on the 1/4 grid in [-4, 4], inputs in {+-1, 1/2, 2, 1/4}, objective MSE or AE, plain SGD with learning rate in {1/16 .. 2}, 1-3 training and validation points, batch 1..N+1, tolerance 1..6, epoch budget 1..14, validation data present in 5/6 of the cases, print frequency none (2/3) or 1, 2, 3, 100; one case in eight steers the validation loss by exactly one unit in the last place per epoch. Invariant over the returned history: one training-loss entry per epoch run, as many validation-loss and accuracy entries (none without validation data, and then all epochs run), never continues past the first epoch e > tolerance whose last `tolerance` validation losses are strictly increasing, stops early only if that holds at the last epoch, final weights and training losses equal those of a validation-free run of exactly that many epochs. Non-trivial: trajectory not monotone-falling, or an early stop. Distinct = (trajectory class, tolerance, budget, epochs run, loss bit patterns).".into()
+        "tape-decoded training set-up whose validation-loss trajectory is exact: linear 1->1 (thorough also 2->1) model without bias, start weight, training slope, validation slope and offset on the 1/4 grid in [-4, 4], inputs in {+-1, 1/2, 2, 1/4}, objective MSE or AE, plain SGD with learning rate in {1/16 .. 2}, 1-3 training and validation points, batch 1..N+1, tolerance 1..6, epoch budget 1..14, validation data present in 5/6 of the cases, print frequency none (2/3) or 1, 2, 3, 100; one case in eight steers the validation loss by exactly one unit in the last place per epoch; in one case of six the network has already been through an earlier learn() call of 1-7 epochs (with or without validation data) and the contract is checked on the second call. Invariant over the returned history: one training-loss entry per epoch run, as many validation-loss and accuracy entries (none without validation data, and then all epochs run), never continues past the first epoch e > tolerance whose last `tolerance` validation losses are strictly increasing, stops early only if that holds at the last epoch, final weights and training losses equal those of a validation-free run of exactly that many epochs. Non-trivial: trajectory not monotone-falling, or an early stop. Distinct = (trajectory class, tolerance, budget, epochs run, loss bit patterns).".into()
     }
     fn assumptions(&self) -> Vec<String> {
         vec!["'strictly increased throughout the last `tolerance` recorded epochs' is read as: the last `tolerance` recorded validation losses form a strictly increasing sequence (tolerance - 1 comparisons)".into()]
